@@ -90,7 +90,8 @@ def _flip(op):
 def negate_last(prog, modname, test, env=None):
     """interval env for the *false* outcome of a single comparison var <op> const."""
     env = dict((k, v.copy()) for k, v in (env or {}).items())
-    if isinstance(test, ast.Compare) and len(test.ops) == 1 and isinstance(test.left, ast.Name):
+    if isinstance(test, ast.Compare) and len(test.ops) == 1 and isinstance(test.left, ast.Name) and \
+       fold_num(prog, modname, test.comparators[0]) is not None and not (isinstance(test.comparators[0], ast.Name) and fold_num(prog, modname, test.left) is not None and test.left.id not in env):
         v = fold_num(prog, modname, test.comparators[0])
         if v is None: return env
         iv = env.setdefault(test.left.id, Interval())
@@ -100,4 +101,16 @@ def negate_last(prog, modname, test, env=None):
         elif op is ast.Lt: iv.meet_lo(v, True, src)
         elif op is ast.GtE: iv.meet_hi(v, False, src)
         elif op is ast.Gt: iv.meet_hi(v, True, src)
+    elif isinstance(test, ast.Compare) and len(test.ops) == 1 and isinstance(test.comparators[0], ast.Name):
+        # const <op> var  (the form comparisons take after normalisation N2: `t > 590.` arrives as `590. < t`)
+        v = fold_num(prog, modname, test.left)
+        if v is None: return env
+        iv = env.setdefault(test.comparators[0].id, Interval())
+        op = type(test.ops[0])
+        src = norm(test.left)
+        # not (c <= x)  ->  x < c ;  not (c < x) -> x <= c ;  not (c >= x) -> x > c ; not (c > x) -> x >= c
+        if op is ast.LtE: iv.meet_hi(v, False, src)
+        elif op is ast.Lt: iv.meet_hi(v, True, src)
+        elif op is ast.GtE: iv.meet_lo(v, False, src)
+        elif op is ast.Gt: iv.meet_lo(v, True, src)
     return env
